@@ -625,6 +625,35 @@ def projection_subset_argument(m, elem, rng, facet=False):
                                              elem=type(elem).__name__, N=int(whole.N), x=x.tolist())
 
 
+def projection_subset_of_restricted(m, elem, rng):
+    """project(data, elements=subset) on a basis RESTRICTED to cells listed in NON-ascending order, data given as values at the
+    quadrature points of that basis (DiscreteField, and the bare ndarray): the result reproduces the function of the space
+    on the DOFs of the subset and is zero elsewhere"""
+    from skfem import Basis
+    nt = m.t.shape[1]
+    k = int(rng.integers(2, nt + 1))
+    tind = rng.permutation(nt)[:k]                                # unsorted on purpose
+    if np.all(np.diff(tind) > 0):
+        tind = tind[::-1].copy()
+    whole = Basis(m, elem)
+    x = rng.uniform(-1, 1, whole.N)
+    ks = int(rng.integers(1, k + 1))
+    S = tind[rng.permutation(k)[:ks]]                             # a subset of the basis' cells, any order
+    I = whole.get_dofs(elements=S).flatten()
+    want = np.zeros(whole.N)
+    want[I] = x[I]
+    worst, errs = 0.0, {}
+    for label, b in (('Basis(elements=unsorted)', Basis(m, elem, elements=tind)), ('with_elements(unsorted)', whole.with_elements(tind))):
+        data = b.interpolate(x)
+        for form, d in (('DiscreteField', data), ('ndarray', np.asarray(data.value))):
+            y = b.project(d, elements=S)
+            e = relerr(np.asarray(y), want)
+            errs[f'{label}, {form}'] = e
+            worst = max(worst, e)
+    return worst, {'what': 'project(quadrature-point data, elements=subset) on a basis restricted to an unsorted cell list', 'elem': type(elem).__name__,
+                   'basis_cells': tind.tolist(), 'subset': S.tolist(), 'errors': errs, 'N': int(whole.N)}
+
+
 def projection_subdomain(m, elem, rng, via_argument=False, intorder=None):
     """basis restricted to a cell subset (tind) — or whole basis with project(elements=...) and a function supported on I"""
     from skfem import Basis
